@@ -1,8 +1,9 @@
 #!/venv/bin/python
 """ad hoc mutation probe: (file, old, new, props) on a scratch worktree"""
-import subprocess, sys, pathlib, tempfile, json
+import subprocess, sys, pathlib, tempfile, json, shutil
 M = json.load(open(sys.argv[1]))
 wt = pathlib.Path(tempfile.mkdtemp(prefix="nvsa-probe-")); wt.rmdir()
+ev = tempfile.mkdtemp(prefix="nvsa-probe-ev-")
 subprocess.run(["git","-C","/repo","worktree","add","-q","--detach",str(wt),"HEAD"],check=True)
 try:
     for i,(rel,old,new,props) in enumerate(M):
@@ -10,10 +11,11 @@ try:
         if s.count(old) != 1:
             print(f"#{i} SETUP count={s.count(old)} {old[:50]!r}"); continue
         p.write_text(s.replace(old,new))
-        r = subprocess.run(["/verif/check",*props,"--root",str(wt),"--evidence-dir",tempfile.mkdtemp(prefix="nvsa-probe-ev-")],capture_output=True,text=True)
+        r = subprocess.run(["/verif/check",*props,"--root",str(wt),"--evidence-dir",ev],capture_output=True,text=True)
         fired = sorted({l.split("]")[0].split("[")[1] for l in r.stdout.splitlines() if "violated:" in l})
         err = [l for l in r.stdout.splitlines() if "ANALYSIS-ERROR" in l][:1]
         print(f"#{i} {'FIRED ' if fired else ('ERROR ' if err else 'MISSED')} {fired or err} :: {rel.split('/')[-1]} :: {new[:70]!r}")
         p.write_text(s)
 finally:
     subprocess.run(["git","-C","/repo","worktree","remove","--force",str(wt)])
+    shutil.rmtree(ev, ignore_errors=True)
